@@ -267,8 +267,29 @@ type MessageVfMaybeUntaggedEnum struct {
 
 func (*MessageVfMaybeUntaggedEnum) GetID() uint32 { return 50034 }
 
+// wire names outside ASCII (a definition written by hand): CRC_EXTRA is computed over the BYTES of the names
+type MessageVfUnicodeName struct {
+	Hoehe   float32 `mavname:"höhe_m"`
+	Groesse uint16  `mavname:"größe"`
+	Plain   uint8
+	Ja      string `mavlen:"4" mavname:"日本"`
+}
+
+func (*MessageVfUnicodeName) GetID() uint32 { return 50042 }
+
+// a hand-written struct that declares an extension BEFORE a regular field (no XML definition can say that, so only its v1
+// form is judged, in C09: v1 leaves extensions out wherever they stand in the Go struct; base fields of one size keep
+// their declaration order)
+type MessageVfExtEarly struct {
+	A uint8
+	X uint8 `mavext:"true"`
+	B uint8
+}
+
+func (*MessageVfExtEarly) GetID() uint32 { return 243 }
+
 func maybeMessages() []message.Message {
-	return []message.Message{&MessageVfMaybeEnumInt16{}, &MessageVfMaybeEnumInt8Array{}, &MessageVfMaybeEnumUint64{}, &MessageVfMaybeNamedTypes{}, &MessageVfMaybeUntaggedEnum{}}
+	return []message.Message{&MessageVfMaybeEnumInt16{}, &MessageVfMaybeEnumInt8Array{}, &MessageVfMaybeEnumUint64{}, &MessageVfMaybeNamedTypes{}, &MessageVfMaybeUntaggedEnum{}, &MessageVfUnicodeName{}}
 }
 
 func userMessages() []message.Message {
